@@ -21,7 +21,16 @@ def family(ctx):
     out += ["cfg c=1 | T0: spawn 1; cwr 0 1; join 1 | T1: crd 0",
             "cfg m=2 | T0: spawn 1; lock 0; lock 1; unlock 1; unlock 0; join 1 | T1: lock 1; lock 0; unlock 0; unlock 1",
             "cfg x=1 c=1 | T0: spawn 1; cwr 0 5; st 0 1 rlx; join 1 | T1: ld 0 acq; ifeq 1 v:1 1; crd 0"]
+    out += TLS
     return list(dict.fromkeys(out))
+
+
+# thread-locals whose destructors perform loom operations, lazy statics: nothing may depend on the process
+# (hash seeds, addresses): finding F14 (repaired)
+TLS = ["cfg tlsdtor=1 x=1 | T0: spawn 1; ld 0 rlx; join 1; ld 0 rlx | T1: tls 0; tls 1",
+       "cfg tlsdtor=1 x=1 | T0: spawn 1; ld 0 rlx; join 1 | T1: tls 1; tls 0",
+       "cfg tlsdtor=1 x=1 | T0: tls 1; tls 0; spawn 1; join 1 | T1: ld 0 rlx; ld 0 rlx",
+       "cfg x=1 | T0: spawn 1; lazy 0; lazy 1; join 1 | T1: lazy 1; lazy 0"]
 
 
 def run_harness(args, programs, ckpt_dir=None):
@@ -61,6 +70,11 @@ def run(ctx):
     for p in base:
         if again.get(p) != impl.get(p):
             failures.append((p, "forbidden", "two runs of the same model differ (second process / repeated in one process)"))
+    for _ in range(5):                                                    # five more processes
+        more = run_harness(["run", "--max", str(cap)], TLS)
+        for p in TLS:
+            if more.get(p) != impl.get(p):
+                failures.append((p, "forbidden", "two runs of the same model in different processes differ"))
     # (2) stop / resume at every k
     ckdir = os.path.join(lvlib.BUILD, "ckpt-" + ctx.pid)
     shutil.rmtree(ckdir, ignore_errors=True)
